@@ -114,6 +114,9 @@ pub fn tick() {
 pub fn set_ctx(v: Value) {
     *CTX.lock().unwrap_or_else(|e| e.into_inner()) = Some(v);
 }
+pub fn get_ctx() -> Value {
+    CTX.lock().unwrap_or_else(|e| e.into_inner()).clone().unwrap_or(Value::Null)
+}
 #[inline]
 pub fn set_abcd(a: u64, b: u64, c: u64, d: u64) {
     CTX_A.store(a, Ordering::Relaxed);
